@@ -59,17 +59,21 @@ def persist (fault : Fault) (σ : StoreId) (c : Cnt) (f : PFields) : Cnt × Opti
 
 def refBytes (r : Option String) : String := r.getD ""
 
-/-- uniqueIndex.ProcessAfterUpdate on `name` -/
+/-- uniqueIndex.ProcessAfterUpdate on `name`.  `old` = the parent fields stored before the write (what
+    ProcessBeforeUpdate remembered): none for a create from scratch, the existing fields for an update
+    and for a create of child data over an existing plain parent entity (`isCreate` with `old = some`:
+    no "unchanged" shortcut; the entity's own old entry is removed before the new value is looked up). -/
 def uniqueErr (isCreate : Bool) (db : Db) (id : String) (old : Option PFields) (new : PFields) : Option Err :=
   if !isCreate && old.map (·.name) == some new.name then none
   else if new.name = "" then some .nullName
-  else if db.any (fun p => p.2.f.name == new.name && (isCreate || !(p.1 == id))) then some .dup
+  else if db.any (fun p => p.2.f.name == new.name && !(p.1 == id)) then some .dup
   else if new.name.utf8ByteSize > maxKeySize then some .key
   else none
 
-/-- setIndex.ProcessAfterUpdate on `roles`: an empty element needs a bucket with an empty name -/
-def setErr (isCreate : Bool) (old : Option PFields) (new : PFields) : Option Err :=
-  let oldR := if isCreate then [] else (old.map (·.roles)).getD []
+/-- setIndex.ProcessAfterUpdate on `roles`: remembered values against current ones (no use of IsCreate);
+    an empty element needs a bucket with an empty name -/
+def setErr (old : Option PFields) (new : PFields) : Option Err :=
+  let oldR := (old.map (·.roles)).getD []
   let newR := normRoles new.roles
   if oldR == newR then none
   else if newR.contains "" then some .key
@@ -77,7 +81,7 @@ def setErr (isCreate : Bool) (old : Option PFields) (new : PFields) : Option Err
 
 /-- fkIndex.ProcessAfterUpdate on `ref` (nullable): old and new target must have an entity bucket -/
 def fkErr (isCreate : Bool) (dbAfter : Db) (old : Option PFields) (new : PFields) : Option Err :=
-  let oldV := if isCreate then "" else refBytes (old.bind (·.ref))
+  let oldV := refBytes (old.bind (·.ref))
   let newV := refBytes new.ref
   if !isCreate && oldV == newV then none
   else if oldV ≠ "" && (dbAfter.get oldV).isNone then some .fkMissing
@@ -86,7 +90,7 @@ def fkErr (isCreate : Bool) (dbAfter : Db) (old : Option PFields) (new : PFields
 
 /-- IndexingContext.ProcessAfterUpdate: constraints in registration order, the first error wins -/
 def indexErr (isCreate : Bool) (db dbAfter : Db) (id : String) (old : Option PFields) (new : PFields) : Option Err :=
-  (uniqueErr isCreate db id old new).or ((setErr isCreate old new).or (fkErr isCreate dbAfter old new))
+  (uniqueErr isCreate db id old new).or ((setErr old new).or (fkErr isCreate dbAfter old new))
 
 /-- fkDeleteConstraint.ProcessBeforeDelete: the back-reference set is non-empty (the entity's own
     reference to itself has been removed by fkIndex.ProcessBeforeDelete before) -/
@@ -229,7 +233,9 @@ def finishWrite (env : Env) (fault : Fault) (rLoad rParent rOwn : Ret) (finalHol
 def writtenEnt (σ : StoreId) (db : Db) (id : String) (f : PFields) (rank : String) : Ent :=
   { f := f.norm, child := match σ with | .P => (db.get id).bind (·.child) | .C => some rank }
 
-/-- BaseStore.Create -/
+/-- BaseStore.Create.  A child store only looks at its own data for "already exists": child data may be
+    created over an existing plain parent entity (`parentExists`), whose parent fields are then replaced —
+    the parent context's ProcessBeforeUpdate runs first so that the parent's index entries are replaced. -/
 def create (env : Env) (fault : Fault) (σ : StoreId) (id : String) (f : PFields) (rank : String)
     (st : TxSt) : TxSt × Res :=
   let validation : Option Err :=
@@ -245,23 +251,42 @@ def create (env : Env) (fault : Fault) (σ : StoreId) (id : String) (f : PFields
   | none =>
     let st := afterValidate.1
     let db0 := st.db
-    -- getOrCreateEntityBucket + PersistEntity
+    let fl : Flow := { store := σ, kind := .created, id := id, initial := none, final := none, parentEvent := false }
+    -- `parentExists := store.parent != nil && store.parent.IsEntityPresent(...)`
+    let old : Option PFields := match σ with
+      | .P => none
+      | .C => (db0.get id).map (·.f)
+    -- getOrCreateEntityBucket; `if parentExists { indexingContext.Parent.ProcessBeforeUpdate() }` (the
+    -- parent store's level only, IsCreate = true, the holder is the new bucket of the child path)
+    let bu : TxSt × Option Err :=
+      if old.isSome then ixStage env .P .beforeUpdate id true none none st else (st, none)
+    -- PersistEntity (the child strategy persists the parent fields through ctx.GetParentContext())
     let p := persist fault σ Cnt.zero f
-    let st := raiseOpt { st with db := db0.put id (writtenEnt σ db0 id f rank) } p.2
-    let afterPersist : Option Res :=
-      match p.2 with
-      | none => none
-      | some e => match env.t.createPersist.act e with
-        | .ret r => some r
-        | .cont => none
-    match afterPersist with
-    | some r => (st, r)
+    let h0 : Option Err := if σ = .C ∧ env.t.persistSharesHolder = false then none else bu.2
+    match h0 with
+    | some e =>
+      -- ProceedWithSet: nothing is written; the (empty) bucket of the child path has been created
+      let st := { bu.1 with inexact := true }
+      match env.t.createPersist.act e with
+      | .ret r => (st, r)
+      | .cont =>
+        finishWrite env fault env.t.createLoad env.t.createParentEvent env.t.createOwnEvent
+          env.t.createFinalHolder fl (some e) p.1 st
     | none =>
-      -- indexingContext.ProcessAfterUpdate (every level is skipped when the holder already has an error)
-      let ix := ixStage env σ .afterUpdate id true (indexErr true db0 st.db id none f) p.2 st
-      let fl : Flow := { store := σ, kind := .created, id := id, initial := none, final := none, parentEvent := false }
-      finishWrite env fault env.t.createLoad env.t.createParentEvent env.t.createOwnEvent
-        env.t.createFinalHolder fl ix.2 p.1 ix.1
+      let st := raiseOpt { bu.1 with db := db0.put id (writtenEnt σ db0 id f rank) } p.2
+      let afterPersist : Option Res :=
+        match p.2 with
+        | none => none
+        | some e => match env.t.createPersist.act e with
+          | .ret r => some r
+          | .cont => none
+      match afterPersist with
+      | some r => (st, r)
+      | none =>
+        -- indexingContext.ProcessAfterUpdate (every level is skipped when the holder already has an error)
+        let ix := ixStage env σ .afterUpdate id true (indexErr true db0 st.db id old f) p.2 st
+        finishWrite env fault env.t.createLoad env.t.createParentEvent env.t.createOwnEvent
+          env.t.createFinalHolder fl ix.2 p.1 ix.1
 
 /-- the body of BaseStore.Update once the child-store strategies declined -/
 def updateLocal (env : Env) (fault : Fault) (σ : StoreId) (id : String) (f : PFields) (rank : String)
